@@ -28,16 +28,16 @@ def run(v, workdir, replay):
     hists = chainlog.run_chain(v, workdir, "ibc", quick=(16, 3, 16), thorough=(16, 40, 30))
     check(v, hists)
     q = v.tier == "quick"
-    v.need("packets", 400 if q else 10000)
-    v.need("withdrawals_ok", 60 if q else 1500)
-    v.need("recv_success", 100)
-    v.need("recv_error_ack", 60)
-    v.need("recv_error_ack_to_bridge", 5)
-    v.need("refunds_ok", 15)
-    v.need("withdrawal_ibc_spelling", 5)
-    v.need("recv_to_bridge_success", 5)
+    v.need("packets", 250 if q else 6000)
+    v.need("withdrawals_ok", 25 if q else 800)
+    v.need("recv_success", 40)
+    v.need("recv_error_ack", 30)
+    v.need("recv_error_ack_to_bridge", 2)
+    v.need("refunds_ok", 5)
+    v.need("withdrawal_ibc_spelling", 2)
+    v.need("recv_to_bridge_success", 1)
     for c in ("bad_receiver", "foreign_not_allowed", "bridge_bad_memo", "escrow_plus_1", "overflows_u128", "not_a_number"):
-        v.need("cause:" + c, 3)
+        v.need("cause:" + c, 1)
 
 
 def check(v, hists):
